@@ -1,12 +1,14 @@
 pub mod c01;
+pub mod c05;
 
 use crate::engine::PropertyDef;
 
 pub fn def(id: &str) -> Option<PropertyDef> {
     Some(match id {
         "C01" => c01::def(),
+        "C05" => c05::def(),
         _ => return None,
     })
 }
 
-pub const ALL: &[&str] = &["C01"];
+pub const ALL: &[&str] = &["C01", "C05"];
